@@ -186,7 +186,51 @@ def gen_extras(r, spec, rich):
     ex["yaml"] = gen_yaml(r2, spec, ex, rich)
     # ---- round 3 (again a separate stream): `google.api.field_info` formats on string fields
     gen_formats(apigen.Rng(f"c10-extras3:{spec['idx']}:{r.random()}"), spec, ex, rich)
+    # ---- round 4 (separate stream): explicit routing rules whose parameters share header keys
+    gen_routing(apigen.Rng(f"c10-extras4:{spec['idx']}:{r.random()}"), spec, ex, rich)
     return ex
+
+
+ROUTE_TEMPLATES = ["{%s=projects/*}/**", "{%s=projects/*/instances/*}/**", "{%s=projects/*/instances/*/tables/*}",
+                   "{%s=regions/*}/**", "{%s=**}", "projects/*/{%s=instances/*}/**"]
+# (the bare form `{key}` is not generated: uri_sample.sample_from_path_template needs the `=` — a probe recorded by C06)
+
+
+def gen_routing(r, spec, ex, rich):
+    """explicit `google.api.routing` rules with 2-4 routing parameters (occasionally 5-6): several parameters resolve to ONE header
+    key (the AIP-4222 shape: the same field under templates of growing length; different fields feeding the same key; a
+    template-less parameter next to a template naming the field itself), identical (field, template) pairs repeated, and keys
+    that are all distinct.  The emitted `routing_param_regex` blocks must keep the order of the annotation (last match wins)."""
+    for svc in spec["services"]:
+        for me in svc["methods"]:
+            if not (r.maybe(0.75) if rich else r.maybe(0.4)):
+                continue
+            fields = ["name", "table_name"] + (["app_profile_id"] if r.maybe(0.6) else [])
+            me["routing_fields"] = fields[1:]
+            shape = r.pick(["same-field-same-key", "same-field-same-key", "fields-same-key", "mixed", "mixed", "distinct-keys", "template-less"])
+            n = r.randint(2, 4) if not r.maybe(0.15) else r.randint(5, 6)
+            params = []
+            if shape == "same-field-same-key":
+                fld, key = r.pick(fields), r.pick(["routing_id", "table_name", "shard"])
+                tpls = r.sample(ROUTE_TEMPLATES[:6], min(n, 6))
+                params = [[fld, t % key] for t in tpls]
+            elif shape == "fields-same-key":
+                key = r.pick(["routing_id", "zone"])
+                params = [[r.pick(fields), r.pick(ROUTE_TEMPLATES[:6]) % key] for _ in range(n)]
+                params[0][0], params[1][0] = fields[0], fields[1]
+            elif shape == "distinct-keys":
+                keys = r.sample(["routing_id", "zone", "shard", "tenant", "cell", "lane"], n)
+                params = [[r.pick(fields), r.pick(ROUTE_TEMPLATES[:6]) % k] for k in keys]
+            elif shape == "template-less":
+                fld = r.pick(fields)
+                params = [[fld, None], [fld, ROUTE_TEMPLATES[0] % fld], [fld, ROUTE_TEMPLATES[1] % fld]][:max(2, min(n, 3))]
+                r.shuffle(params)
+            else:
+                keys = ["routing_id", r.pick(["zone", "shard"])]
+                params = [[r.pick(fields), r.pick(ROUTE_TEMPLATES) % r.pick(keys)] for _ in range(n)]
+            if r.maybe(0.35):                      # the identical (field, template) pair once more, somewhere else in the list
+                params.insert(r.randint(0, len(params)), list(r.pick(params)))
+            me["routing"] = params
 
 
 FORMATS = ["UUID4", "IPV4", "IPV6", "IPV4_OR_IPV6"]
@@ -451,6 +495,9 @@ def build_files(spec):
                 rq.field(ap, uuid4=True)
             for ff in me.get("fmt_fields") or []:        # round 3: field_info formats (required / flattened / optional)
                 fmt_field(rq, ff)
+            for rfn in me.get("routing_fields") or []:   # round 4: the fields the explicit routing parameters read
+                rq.field(rfn)
+            routing = [tuple(p) for p in me.get("routing") or []] or None
             http_uri = "/v1/{name=" + f"c{tgt}s/*" + "}"
             body = (me.get("body_field") or "*") if me["http"] in ("post", "patch") else None
             sigs = ["name"] if me["sig"] else []
@@ -465,16 +512,16 @@ def build_files(spec):
                 rq.field("page_size", "int32"); rq.field("page_token")
                 rs = f.msg(f"{svc['name']}{me['name']}Response")
                 rs.field("items", "message", repeated=True, type_name=full(tgt)); rs.field("next_page_token")
-                so.method(me["name"], rq, rs, http=("get", http_uri + "/items"), sigs=sigs)
+                so.method(me["name"], rq, rs, http=("get", http_uri + "/items"), sigs=sigs, routing=routing)
             elif kind == "lro":
                 so.method(me["name"], rq, ".google.longrunning.Operation", http=(me["http"], http_uri + ":run"), body=body,
-                          sigs=sigs, lro=(f"{PKG}.{msgs[tgt]['name']}", f"{PKG}.{msgs[me['other']]['name']}"))
+                          sigs=sigs, lro=(f"{PKG}.{msgs[tgt]['name']}", f"{PKG}.{msgs[me['other']]['name']}"), routing=routing)
             elif kind == "sstream":
-                so.method(me["name"], rq, full(tgt), http=(me["http"], http_uri + ":stream"), body=body, ss=True)
+                so.method(me["name"], rq, full(tgt), http=(me["http"], http_uri + ":stream"), body=body, ss=True, routing=routing)
             elif kind == "void":
-                so.method(me["name"], rq, ".google.protobuf.Empty", http=("delete", http_uri), sigs=sigs)
+                so.method(me["name"], rq, ".google.protobuf.Empty", http=("delete", http_uri), sigs=sigs, routing=routing)
             else:
-                so.method(me["name"], rq, full(tgt), http=(me["http"], http_uri), body=body, sigs=sigs)
+                so.method(me["name"], rq, full(tgt), http=(me["http"], http_uri), body=body, sigs=sigs, routing=routing)
             if me["codes"]:
                 retry_cfg["methodConfig"].append({
                     "name": [{"service": f"{PKG}.{svc['name']}", "method": me["name"]}], "timeout": "60s",
@@ -1616,7 +1663,8 @@ def run(ctx):
                 "additional_bindings, rules of disabled mixins and of own methods, method_settings (long_running / auto_populated UUID4 fields), "
                 "library_settings (selective generation of a method subset, rest_async_io) —, sub-packages of sub-packages, a service inside a "
                 "sub-package, an own rpc named like an IAM mixin method; round 3: string fields with a google.api.field_info format (UUID4 / IPV4 / IPV6 / "
-                "IPV4_OR_IPV6) in request messages (mostly unary RPCs) and in resource messages — required, flattened by an own method_signature, inside "
+                "IPV4_OR_IPV6; round 4: explicit google.api.routing rules with 2-6 parameters — same field / different fields resolving to one header "
+                "key, template-less next to templated, identical pairs repeated, all-distinct keys) in request messages (mostly unary RPCs) and in resource messages — required, flattened by an own method_signature, inside "
                 "a single-field REST body, or plain optional; optional UUID4 ones listed in auto_populated_fields for about half of the eligible methods; per API 3-6 re-ordered variants of its yaml at schema level; each API is "
                 "generated by N separate processes (distinct PYTHONHASHSEED incl. `random`, three working directories, five "
                 "locale/TZ/HOME environments, same seed twice) plus 2-3 processes (6 on replay) that differ from the first one only in the wall-clock "
